@@ -54,7 +54,7 @@ fn two_different(c: &mut Choices) -> ((String, String), (String, String)) {
     }
 }
 
-pub const N_SNIPPETS: usize = 38;
+pub const N_SNIPPETS: usize = 39;
 
 pub fn snippet(k: usize, c: &mut Choices) -> Snippet {
     let mut decls = String::new();
@@ -298,9 +298,18 @@ pub fn snippet(k: usize, c: &mut Choices) -> Snippet {
         }
         28 => {
             decls.push_str("record ZzP { a: i32 }\nrecord ZzQ { a: i32 }\n");
-            let s = match c.below(2) {
+            // also through a variable that was inferred from an anonymous record literal: once it has
+            // been used as one named record it cannot be the other one any more
+            decls.push_str("record ZzR { a: i32, b: String }\nrecord ZzS { b: String, a: i32 }\nfn zz_tp(x: ZzP) -> i32 { 1 }\nfn zz_tq(x: ZzQ) -> i32 { 2 }\nfn zz_tr(x: ZzR) -> i32 { 3 }\nfn zz_ts(x: ZzS) -> i32 { 4 }\n");
+            let s = match c.below(8) {
                 0 => "let zzp: ZzP = ZzP { a: 1 };\nlet zz: ZzQ = zzp;\n",
-                _ => "let zzp: ZzP = ZzP { a: 1 };\nlet zzq: ZzQ = ZzQ { a: 1 };\nlet zz = zzp == zzq;\n",
+                1 => "let zzp: ZzP = ZzP { a: 1 };\nlet zzq: ZzQ = ZzQ { a: 1 };\nlet zz = zzp == zzq;\n",
+                2 => "let zzr = { a: 1 };\nlet zzx: ZzP = zzr;\nlet zzy: ZzQ = zzr;\n",
+                3 => "let zzr = { a: 1 };\nlet zz = zz_tp(zzr) + zz_tq(zzr);\n",
+                4 => "let zzr = { a: 1, b: \"one\" };\nlet zz = zz_tr(zzr) + zz_ts(zzr);\n",
+                5 => "let zzr = { b: \"one\", a: 1 };\nlet zzx: ZzS = zzr;\nlet zz = zz_tr(zzr);\n",
+                6 => "let zzr = { a: 1 };\nlet zzx = zz_tq(zzr);\nlet zzy: ZzP = zzr;\n",
+                _ => "let zzr = { a: 1 };\nlet zzq: ZzQ = ZzQ { a: 1 };\nlet zzb = zzr == zzq;\nlet zz = zz_tp(zzr);\n",
             };
             ("distinct-named-records-with-equal-fields", s.to_string())
         }
@@ -446,6 +455,29 @@ pub fn snippet(k: usize, c: &mut Choices) -> Snippet {
                 }
             };
             ("generic-type-at-another-type-argument", s)
+        }
+        38 => {
+            // leaving an item without a value where a value is required, and with a value where
+            // none is: a bare `return` / `accept` / `reject` stands for the unit value
+            let t = num_ty(c);
+            let v = num_lit(t, c);
+            let (o, ov) = other(c);
+            let o = if o == "()" { "String" } else { o };
+            let ov = if o == "String" { "\"a\"" } else { ov };
+            let d = match c.below(10) {
+                0 => format!("fn zz_exit(x: {t}) -> {t} {{ if x > {v} {{ return; }} x }}\n"),
+                1 => format!("filtermap zz_exit(x: {t}) {{ if x > {v} {{ accept x }} if x == {v} {{ accept }} reject }}\n"),
+                2 => format!("filtermap zz_exit(x: {t}) {{ if x > {v} {{ reject x }} if x == {v} {{ reject }} accept }}\n"),
+                3 => format!("fn zz_exit(x: {t}) -> Verdict[{t}, {o}] {{ if x > {v} {{ reject }} accept x }}\n"),
+                4 => format!("fn zz_exit(x: {t}) -> Verdict[{o}, {t}] {{ if x > {v} {{ accept }} reject x }}\n"),
+                5 => format!("fn zz_exit(x: {t}) -> Verdict[{t}, {o}] {{ if x > {v} {{ accept }} reject {ov} }}\n"),
+                6 => format!("fn zz_exit(x: {t}) {{ if x > {v} {{ return x; }} }}\n"),
+                7 => format!("fn zz_exit(x: {t}) -> Verdict[(), ()] {{ if x > {v} {{ accept x }} reject }}\n"),
+                8 => format!("filtermap zz_exit(x: {t}) {{ if x > {v} {{ accept }} if x == {v} {{ accept {ov} }} reject }}\n"),
+                _ => format!("fn zz_exit(x: {t}) -> {t}? {{ if x > {v} {{ return; }} Option.Some(x) }}\n"),
+            };
+            decls.push_str(&d);
+            ("exit-without-the-required-value", "let zz = 1;\n".to_string())
         }
         _ => {
             let s = match c.below(3) {
